@@ -220,3 +220,66 @@ Definition gob_decode (t0 : node) (b : list byte) : dec store :=
     dd ir <- read_ids s0 0 count r1;
     let '(s1, r2) := ir in
     read_records s1 count r2.
+
+(* ------------------------------------------------------------------ observation helper *)
+
+(* what a PatternSearcher accepts: same length, every position blank in the pattern or equal *)
+Fixpoint pat_match (blank : byte) (p w : word) : bool :=
+  match p, w with
+  | [], [] => true
+  | c :: p', x :: w' => (N.eqb c blank || N.eqb c x) && pat_match blank p' w'
+  | _, _ => false
+  end.
+
+(* ------------------------------------------------------------------ domain check
+   A boolean test, run by the model driver on every generated automaton, that the automaton
+   lies in the domain of the C14 theorems ([wf] of CodecWf.v; soundness in CodecCheck.v).
+   [univ] lists the reachable keys, the root first, every other one after a node that links to
+   it; [hl] gives a height to every key (strictly decreasing along links).  Both are
+   certificates computed outside (nothing is assumed about them). *)
+
+Definition hof (hl : list (N * nat)) (k : N) : nat :=
+  match find (fun p => fst p =? k) hl with Some p => snd p | None => O end.
+
+Definition node_okb (n : node) : bool :=
+  Nat.eqb (length (nlabels n)) (length (nkids n)) &&
+  forallb (fun b => b <? 256) (nlabels n) &&
+  (nid n <? 2 ^ 64) &&
+  Z.leb (- 2 ^ 63) (nwords n) && Z.ltb (nwords n) (2 ^ 63) &&
+  (N.of_nat (length (nkids n)) <? 2 ^ 64).
+
+Fixpoint nodupb (l : list N) : bool :=
+  match l with
+  | [] => true
+  | x :: l' => negb (existsb (N.eqb x) l') && nodupb l'
+  end.
+
+Definition links_to (s : store) (k p : N) : bool :=
+  match sget s p with Some n => existsb (N.eqb k) (nkids n) | None => false end.
+
+(* every element of [rest] is a link target of an element listed before it *)
+Fixpoint chainb (s : store) (seen rest : list N) : bool :=
+  match rest with
+  | [] => true
+  | k :: rest' => existsb (links_to s k) seen && chainb s (k :: seen) rest'
+  end.
+
+Definition id_at (s : store) (k : N) : N :=
+  match sget s k with Some n => nid n | None => 0 end.
+
+Definition wf_checkb (s : store) (d : N) (univ : list N) (hl : list (N * nat)) : bool :=
+  match univ with
+  | [] => false
+  | r :: rest =>
+    (r =? d) && chainb s [r] rest &&
+    forallb (fun k =>
+               match sget s k with
+               | Some n =>
+                 node_okb n &&
+                 forallb (fun k' => existsb (N.eqb k') univ && (hof hl k' <? hof hl k)%nat) (nkids n) &&
+                 (id_at s d <=? nid n)
+               | None => false
+               end) univ &&
+    nodupb (map (id_at s) univ) &&
+    (N.of_nat (length univ) <? 2 ^ 64)
+  end.
